@@ -55,6 +55,13 @@ func guardSitesOf(p *Prog, fn *ssa.Function) []guardSite {
 				}
 			case *ssa.MapUpdate:
 				name = "mapupdate"
+			case *ssa.Return:
+				// verdicts of predicates: `return false` / `return true`
+				if len(x.Results) == 1 {
+					if bv, isC := constBool(x.Results[0]); isC {
+						name = fmt.Sprintf("return:%v", bv)
+					}
+				}
 			}
 			if name == "" {
 				continue
